@@ -56,9 +56,11 @@ REQUIRED = ("per test one contiguous block time(start),startTest,time(end),tags,
             "per-thread order and own start time; semaphore always released, no deadlock")
 
 
-# Not claimed by the property, so only checked on request: after a target call
-# raised inside a block, the reporter's LATER tests still get exactly their tags.
-STRICT = bool(os.environ.get("C12_STRICT_TAGS_AFTER_FAULT"))
+# "that test's tags" holds for every reported test, also for the tests a reporter
+# forwards AFTER a target call raised inside one of its earlier blocks (the buffered
+# tags of the abandoned block must not reappear).  Was optional until the defect was
+# repaired in /repo (fix 7fb8303); C12_LENIENT_TAGS_AFTER_FAULT=1 switches it off.
+STRICT = not os.environ.get("C12_LENIENT_TAGS_AFTER_FAULT")
 
 
 HarnessError = type("HarnessError", (BaseException,), {})  # internal problem: exit 2
